@@ -22,11 +22,16 @@ def seed_of(k):
 
 def window(win, t):
     return {'in': (t - 100, t + 100), 'atbegin': (t, t + 100), 'beforebegin': (t + 1, t + 100), 'endm1': (t - 100, t + 1),
-            'atend': (t - 100, t), 'future': (t - 100, t + 100)}[win]
+            'atend': (t - 100, t), 'future': (t - 100, t + 100), 'slackm1': (t - 100, t + 100)}[win]
 
 
-def one(F, T, kind, certs, fs, sf, t=T0, seedmap=seed_of, corrupt=None):
-    now = t - 10 ** 6 if any(c['win'] == 'future' for c in certs) else t
+SLACK = 60        # the default ts_threshold
+
+
+def one(F, T, kind, certs, fs, sf, t=T0, seedmap=seed_of, corrupt=None, ahead=SLACK):
+    """`ahead` (>= SLACK): how far a "future" execution timestamp is ahead of the verifier clock."""
+    wins = [c['win'] for c in certs]
+    now = t - ahead if 'future' in wins else t - (SLACK - 1) if 'slackm1' in wins else t
     real = []
     for c in certs:
         b, e = window(c['win'], t)
@@ -80,7 +85,7 @@ def record_random(args):
         certs = []
         for i in range(1, n + 1):
             certs.append({'d': i + 1 if honest or r.random() < 0.85 else 9, 's': i if honest or r.random() < 0.85 else 8,
-                          'win': 'in' if honest and r.random() < 0.7 else r.choice(['in', 'atbegin', 'beforebegin', 'endm1', 'atend', 'future']),
+                          'win': 'in' if honest and r.random() < 0.7 else r.choice(['in', 'atbegin', 'beforebegin', 'endm1', 'atend', 'future', 'slackm1']),
                           'can': True if honest and r.random() < 0.8 else r.random() < 0.7})
         fs = n + 1 if honest or r.random() < 0.8 else 9
         keys = {k: r.randbytes(32) for k in list(range(1, n + 2)) + [8, 9]}
@@ -94,7 +99,7 @@ def record_random(args):
             corrupt = (i, off, 1 << r.randrange(8))
             model[i]['s'] = 8          # the certificate signature no longer verifies under the authorizing key
         try:
-            got = one(F, T, kind, certs, fs, sf, t, lambda k: keys[k], corrupt)
+            got = one(F, T, kind, certs, fs, sf, t, lambda k: keys[k], corrupt, r.choice([SLACK, SLACK, SLACK + 1, 10 ** 6]))
         except BaseException as e:
             if isinstance(e, (KeyboardInterrupt, SystemExit)):
                 raise
@@ -107,7 +112,7 @@ def main(tier: str, seed: int) -> int:
     rep = Report('C14', tier, seed)
     rep.rule = ('MC (Delegation.tla: the chain lock as a state machine, one step per certificate): every chain of 1..N certificates '
                 'with each certificate\'s delegate in {next key, foreign}, signer in {authorizing key, foreign}, window in {inside, t = '
-                'begin, t = begin - 1, t = end - 1, t = end, inside but beyond the clock slack}, may-delegate in {yes, no}, final '
+                'begin, t = begin - 1, t = end - 1, t = end, inside but ahead of the pinned verifier clock by exactly the slack threshold (rejected), by one second less (accepted)}, may-delegate in {yes, no}, final '
                 'signer in {last delegate, foreign}, plus the single-certificate lock; invariants AcceptIffValidChain, '
                 'AuthIsCertified; CertRoundTrip on the 105-byte layout (offsets 32/36/40/41, 4-byte timestamps at 0, 1, 2^8, 2^16, 2^24 '
                 'boundaries and 2^31-1). Every chain is built with the real cert / witness / lock builders under a pinned clock and '
@@ -118,7 +123,7 @@ def main(tier: str, seed: int) -> int:
     quick = tier == 'quick'
     scncheck.mc(rep, 'Delegation', 'mc', INV, run_mc, consts={'MaxChain': 2 if quick else 3}, workers=16)
     import multiprocessing as mp
-    n = 1200 if quick else 30000
+    n = 6000 if quick else 40000
     with mp.get_context('fork').Pool(14) as pool:
         cases = [c for ch in pool.map(record_random, [(seed * 61 + i, n // 28) for i in range(28)]) for c in ch]
     scncheck.judge(rep, 'Delegation', ['AcceptIffValidChain', 'TypeOK'], cases, 'random delegation chains', consts={'MaxChain': 0})
